@@ -97,6 +97,11 @@ def gen_cases(rng, tier):
             g1 = ["grouped", "grp/same", [mk(A), mk(B)]]
             g2 = ["grouped", "grp/same", [mk(C)]]
             seq = [g1, g2] if r.chance(50) else [g2, g1]
+            if r.chance(50):
+                # one group holding two versions of ONE type name (a record and its extended form): both definitions
+                # have to be in the stream before the group's frame
+                A2 = ["g/a", fa + fb]
+                seq.insert(r.randint(0, len(seq)), ["grouped", "grp/evo", [mk(A), mk(A2)] if r.chance(50) else [mk(A2), mk(A)]])
             if r.chance(30):
                 seq.insert(r.randint(0, 2), mk(r.choice([A, B, C])))
             case["records"] = recs[:r.randint(0, 2)] + seq + recs[2:]
